@@ -23,7 +23,7 @@ type sentPacket struct {
 	Buf  []byte
 }
 
-type recTransport struct {
+type qRecTransport struct {
 	advIP    net.IP
 	mu       sync.Mutex
 	sent     []sentPacket
@@ -31,36 +31,36 @@ type recTransport struct {
 	streamCh chan net.Conn
 }
 
-func newRecTransport() *recTransport {
-	return &recTransport{packetCh: make(chan *memberlist.Packet), streamCh: make(chan net.Conn)}
+func newQRecTransport() *qRecTransport {
+	return &qRecTransport{packetCh: make(chan *memberlist.Packet), streamCh: make(chan net.Conn)}
 }
 
-func (t *recTransport) FinalAdvertiseAddr(ip string, port int) (net.IP, int, error) {
+func (t *qRecTransport) FinalAdvertiseAddr(ip string, port int) (net.IP, int, error) {
 	if t.advIP != nil {
 		return t.advIP, 7946, nil
 	}
 	return net.ParseIP("127.0.0.1"), 7946, nil
 }
-func (t *recTransport) WriteTo(b []byte, addr string) (time.Time, error) {
+func (t *qRecTransport) WriteTo(b []byte, addr string) (time.Time, error) {
 	return t.WriteToAddress(b, memberlist.Address{Addr: addr})
 }
-func (t *recTransport) WriteToAddress(b []byte, a memberlist.Address) (time.Time, error) {
+func (t *qRecTransport) WriteToAddress(b []byte, a memberlist.Address) (time.Time, error) {
 	t.mu.Lock()
 	t.sent = append(t.sent, sentPacket{Addr: a.Addr, Name: a.Name, Buf: append([]byte{}, b...)})
 	t.mu.Unlock()
 	return time.Now(), nil
 }
-func (t *recTransport) PacketCh() <-chan *memberlist.Packet { return t.packetCh }
-func (t *recTransport) DialTimeout(addr string, timeout time.Duration) (net.Conn, error) {
-	return nil, fmt.Errorf("recTransport: no streams")
+func (t *qRecTransport) PacketCh() <-chan *memberlist.Packet { return t.packetCh }
+func (t *qRecTransport) DialTimeout(addr string, timeout time.Duration) (net.Conn, error) {
+	return nil, fmt.Errorf("qRecTransport: no streams")
 }
-func (t *recTransport) DialAddressTimeout(a memberlist.Address, timeout time.Duration) (net.Conn, error) {
-	return nil, fmt.Errorf("recTransport: no streams")
+func (t *qRecTransport) DialAddressTimeout(a memberlist.Address, timeout time.Duration) (net.Conn, error) {
+	return nil, fmt.Errorf("qRecTransport: no streams")
 }
-func (t *recTransport) StreamCh() <-chan net.Conn { return t.streamCh }
-func (t *recTransport) Shutdown() error            { return nil }
+func (t *qRecTransport) StreamCh() <-chan net.Conn { return t.streamCh }
+func (t *qRecTransport) Shutdown() error            { return nil }
 
-func (t *recTransport) take() []sentPacket {
+func (t *qRecTransport) take() []sentPacket {
 	t.mu.Lock()
 	defer t.mu.Unlock()
 	out := t.sent
@@ -71,7 +71,7 @@ func (t *recTransport) take() []sentPacket {
 type qnode struct {
 	s    *serf.Serf
 	conf *serf.Config
-	tr   *recTransport
+	tr   *qRecTransport
 	evCh chan serf.Event
 }
 
@@ -90,7 +90,7 @@ type qnodeOpts struct {
 func newQNode(o qnodeOpts) (*qnode, error) {
 	conf := serf.DefaultConfig()
 	conf.Init()
-	tr := newRecTransport()
+	tr := newQRecTransport()
 	tr.advIP = o.advIP
 	conf.NodeName = o.name
 	if conf.NodeName == "" {
@@ -148,8 +148,8 @@ func (n *qnode) shutdown() {
 	}
 }
 
-// mlNode builds a memberlist node record for the event delegate.
-func mlNode(name string, ip net.IP, port uint16, pmax uint8) *memberlist.Node {
+// qMlNode builds a memberlist node record for the event delegate.
+func qMlNode(name string, ip net.IP, port uint16, pmax uint8) *memberlist.Node {
 	return &memberlist.Node{Name: name, Addr: ip, Port: port, PMin: 1, PMax: pmax, PCur: 2, DMin: 2, DMax: 5, DCur: 5}
 }
 
